@@ -3,7 +3,6 @@ worker processes.  A scenario function is a top-level function f(params) -> dict
   violations: [(key, what, witness)], nontrivial: [sig...], sample: obj|None, stats: {k: int},
   inconclusive: str|None, evaluations: int
 """
-import multiprocessing as mp
 import os
 import shutil
 import traceback
@@ -39,15 +38,88 @@ def _call(args):
     return params, r
 
 
-def run_scenarios(res, build, fn, params_list, jobs=16, chunksize=1):
-    """Runs fn over params_list in a process pool and folds results into res."""
+def run_scenarios(res, build, fn, params_list, jobs=16, chunksize=None, chunk_timeout=1500):
+    """Runs fn over params_list in forked worker processes (one per chunk, at most `jobs` at a time)
+    and folds the results into res.  Plain fork + result files: no shared locks, a dying or hanging
+    worker costs only its chunk (reported, never silently dropped)."""
+    import pickle
+    import signal
+    import time
     srv, cli = build.sim_binaries()
-    ctx = mp.get_context("fork")
+    _init(srv, cli, build.run)
+    n = len(params_list)
+    if chunksize is None:
+        chunksize = max(1, min(8, n // (jobs * 3) or 1))
+    chunks = [params_list[i:i + chunksize] for i in range(0, n, chunksize)]
+    outdir = os.path.join(build.run, "results")
+    os.makedirs(outdir, exist_ok=True)
+    pending = list(enumerate(chunks))
+    running = {}     # pid -> (index, start time)
     out = []
-    with ctx.Pool(jobs, initializer=_init, initargs=(srv, cli, build.run)) as pool:
-        for params, r in pool.imap_unordered(_call, [(fn, p) for p in params_list], chunksize):
+
+    def collect(idx, status, timed_out=False):
+        path = os.path.join(outdir, "%d.pkl" % idx)
+        got = None
+        if os.path.exists(path):
+            try:
+                with open(path, "rb") as f:
+                    got = pickle.load(f)
+            except Exception:
+                got = None
+        if got is None:
+            why = "worker-timeout" if timed_out else "worker-died(status=%s)" % status
+            for p in chunks[idx]:
+                if timed_out:
+                    res.inconc(why)
+                else:
+                    res.harness_errors.append("%s on params %r" % (why, p)[:500])
+            return
+        for params, r in got:
             out.append((params, r))
             fold(res, params, r)
+
+    while pending or running:
+        while pending and len(running) < jobs:
+            idx, chunk = pending.pop(0)
+            pid = os.fork()
+            if pid == 0:
+                code = 0
+                try:
+                    signal.signal(signal.SIGTERM, signal.SIG_DFL)
+                    results = [_call((fn, p)) for p in chunk]
+                    tmp = os.path.join(outdir, "%d.tmp" % idx)
+                    with open(tmp, "wb") as f:
+                        pickle.dump(results, f)
+                    os.rename(tmp, os.path.join(outdir, "%d.pkl" % idx))
+                except BaseException:
+                    code = 3
+                finally:
+                    os._exit(code)
+            running[pid] = (idx, time.time())
+        try:
+            pid, status = os.waitpid(-1, os.WNOHANG)
+        except ChildProcessError:
+            pid = 0
+            if running:
+                for p_, (idx, _t) in list(running.items()):
+                    collect(idx, "lost")
+                running.clear()
+        if pid and pid in running:
+            idx, _t = running.pop(pid)
+            collect(idx, status)
+            continue
+        now = time.time()
+        for p_, (idx, t0) in list(running.items()):
+            if now - t0 > chunk_timeout:
+                try:
+                    os.kill(p_, signal.SIGKILL)
+                    os.waitpid(p_, 0)
+                except OSError:
+                    pass
+                running.pop(p_)
+                collect(idx, "killed", timed_out=True)
+        if not pid:
+            time.sleep(0.01)
     return out
 
 
